@@ -537,11 +537,7 @@ impl<'p> Interp<'p> {
 		let mark = self.next_cell;
 		self.spec_marks.push(mark);
 		self.spec_undo.push(Vec::new());
-		{
-			let sol = self.sol.as_mut().unwrap();
-			sol.temp_push();
-			sol.assert(&self.tm, c);
-		}
+		self.sol.as_mut().unwrap().temp_push_assume(c);
 		let nframes = self.frames.len();
 		let nscopes = self.frames.last().map(|f| f.scopes.len()).unwrap_or(0);
 		let r = f(self);
